@@ -48,8 +48,11 @@ def eligible(hist, rec):
     return out
 
 
-def explicit_cmd(hist, i):
-    """The command of step i with its nameplate / mailbox named explicitly (symbolically)."""
+def explicit_cmd(hist, i, rec=None):
+    """The command of step i with its nameplate / mailbox named explicitly (symbolically).  A close without a name is
+    about the mailbox of the connection's last `open` that the server took up: an open refused because the connection
+    was already holding a mailbox (or for another protocol reason) names nothing the connection ever held; an open
+    refused as crowded does (the id is what a later close on that connection refers to)."""
     c, msg = hist[i][1], dict(hist[i][2])
     t = msg["type"]
     cmd = {"type": t}
@@ -70,8 +73,13 @@ def explicit_cmd(hist, i):
         if "mailbox" in msg:
             cmd["mailbox"] = msg["mailbox"]
         else:
-            prev = [s for s in hist[:i] if s[0] == "send" and s[1] == c and isinstance(s[2], dict)
-                    and s[2].get("type") == "open" and "mailbox" in s[2]]
+            def taken_up(k):
+                if rec is None:
+                    return True
+                errs = [f.get("error") for cc, f in rec.steps[k]["frames"] if cc == c and f.get("type") == "error"]
+                return all(e == "crowded" for e in errs)
+            prev = [s for k, s in enumerate(hist[:i]) if s[0] == "send" and s[1] == c and isinstance(s[2], dict)
+                    and s[2].get("type") == "open" and "mailbox" in s[2] and taken_up(k)]
             if not prev:
                 return None
             cmd["mailbox"] = prev[-1][2]["mailbox"]
@@ -106,7 +114,7 @@ def one_dup(acc, hist, cfg, seed, i, rec0, case, keep=False):
     binds = diff.conn_apps(hist)
     c = hist[i][1]
     app, side = binds[c]
-    cmd = explicit_cmd(hist, i)
+    cmd = explicit_cmd(hist, i, rec0)
     if cmd is None:
         return
     dup = [["connect", "dup"], ["send", "dup", {"type": "bind", "appid": app, "side": side}], ["send", "dup", cmd]]
